@@ -1,47 +1,121 @@
 """C08 — loop and iterator restructuring preserves results."""
 from __future__ import annotations
+import itertools
 from xform import *   # noqa
-from fpy2 import strategies as S
-from fpy2.transform.for_unroll import ForUnrollStrategy
-from fpy2.transform.split_loop import SplitLoopStrategy
+import xgen
 
 PROP = 'C08'
+EXTRA_PROPS = ['C08Int']   # Fpy/Props/C08Int.lean is built and audited together with Props/C08
 
-def n_sites(kind, fn):
-    try: return len(S.sites(kind, fn))
-    except Exception: return 0
+CORE = ['unroll_for(times=1)', 'unroll_for(times=2)', 'split(2)', 'split(3)', 'elim_iter()', 'fuse()', 'unroll_while(times=1)']
+WHERES = [None, 0, 1, 2, ('site', 0), ('site', 1), ('stmt', 1), ('stmt', 3), ('body',), ('tail',)]
 
-def recipes():
-    rs = []
+def all_recipes(prog):
+    f = prog.get('factors') or []
+    pn = prog.get('pnames') or []
+    user = [n for n in pn[:2]] + ['acc', 'i', 'n', 't', 'j', 'm']
+    ext = []
+    for t in (1, 2, 3, 4, 5):
+        for w in WHERES:
+            ext.append(f'unroll_for(where={w!r}, times={t})')
+            if w in (None, 0, 1, ('site', 0)): ext.append(f"unroll_for(where={w!r}, times={t}, strategy='STRICT')")
+    for t in (0, 1, 2):
+        ext += [f'ForUnroll(times={t})', f'ForUnroll(times={t}, shared=True)', f"ForUnroll(where=0, times={t}, strategy='STRICT')"]
+    for u in user[:5]:
+        ext += [f'unroll_for(times=1, temp_id={u!r})', f'unroll_for(times=2, len_id={u!r}, idx_id={u!r})', f'unroll_for(times=1, idx_id={u!r})',
+                f'split(2, temp_id={u!r})', f'split(3, outer_id={u!r}, inner_id={u!r})', f'split(2, inner_id={u!r})']
     for t in (1, 2, 3):
-        rs.append((f'unroll_for[all,times={t}]', lambda fn, R, t=t: S.unroll_for(fn, None, t)))
-        rs.append((f'unroll_for[all,times={t}]!strict', lambda fn, R, t=t: S.unroll_for(fn, None, t, strategy=ForUnrollStrategy.STRICT)))
-        rs.append((f'unroll_while[all,times={t}]', lambda fn, R, t=t: S.unroll_while(fn, None, t)))
-        for j in (0, 1, 2):
-            rs.append((f'unroll_for[{j},times={t}]', lambda fn, R, t=t, j=j: S.unroll_for(fn, j, t)))
-            rs.append((f'unroll_while[{j},times={t}]', lambda fn, R, t=t, j=j: S.unroll_while(fn, j, t)))
-    for f in (1, 2, 3, 4):
-        rs.append((f'split[all,factor={f}]', lambda fn, R, f=f: S.split(fn, f)))
-        rs.append((f'split[all,factor={f}]!strict', lambda fn, R, f=f: S.split(fn, f, strategy=SplitLoopStrategy.STRICT)))
-        rs.append((f'split[0,factor={f}]', lambda fn, R, f=f: S.split(fn, f, 0)))
-        rs.append((f'split[1,factor={f}]', lambda fn, R, f=f: S.split(fn, f, 1)))
-    rs.append(('elim_iter', lambda fn, R: S.elim_iter(fn)))
-    rs.append(('elim_iter[zip only]', lambda fn, R: S.elim_iter(fn, enable_enumerate=False)))
-    rs.append(('elim_iter[enumerate only]', lambda fn, R: S.elim_iter(fn, enable_zip=False)))
-    rs.append(('fuse', lambda fn, R: S.fuse(fn)))
-    rs.append(('elim_iter;unroll_for', lambda fn, R: S.unroll_for(S.elim_iter(fn), None, 1)))
-    rs.append(('unroll_for;unroll_for', lambda fn, R: S.unroll_for(S.unroll_for(fn, None, 1), None, 2)))
-    rs.append(('split;unroll_for', lambda fn, R: S.unroll_for(S.split(fn, 2), None, 1)))
-    rs.append(('fuse;unroll_for', lambda fn, R: S.unroll_for(S.fuse(fn), None, 2)))
-    return rs
+        for w in (None, 0, 1, ('site', 0), ('site', 1), ('body',)):
+            ext.append(f'unroll_while(where={w!r}, times={t})')
+    ext += ['WhileUnroll(times=0)', 'WhileUnroll(times=2)', 'WhileUnroll(where=0, times=1)']
+    for k in (1, 2, 3, 4, 5, 6):
+        for w in (None, 0, 1, ('site', 0), ('body',)):
+            ext.append(f'split({k}, where={w!r})')
+            if w in (None, 0): ext.append(f"split({k}, where={w!r}, strategy='STRICT')")
+    for name in f[:2]:
+        for w in (None, 0, 1):
+            ext += [f'split({name!r}, where={w!r})', f"split({name!r}, where={w!r}, strategy='STRICT')"]
+    for e in f[:5]:
+        ext += [f'SplitLoop({e!r})', f'SplitLoop({e!r}, where=0)', f"SplitLoop({e!r}, strategy='STRICT')", f'SplitLoop({e!r}, shared=True)']
+    ext += ["SplitLoop('3')", "SplitLoop('2', shared=True, temp_id='i', outer_id='t', inner_id='t')"]
+    ext += ['elim_iter(enumerate=False)', 'elim_iter(zip=False)', "single('ZipElim')", "single('EnumerateElim')",
+            "seq(single('ZipElim'), single('EnumerateElim'))", "seq(single('EnumerateElim'), single('ZipElim'))", 'repeat(elim_iter(), 2)',
+            "single('ReduceFusion')", 'repeat(fuse(), 2)']
+    basics = ['elim_iter()', 'fuse()', 'unroll_for(times=1)', 'split(2)', 'unroll_while(times=1)', 'unroll_for(times=2)', 'split(3)'] + ([f'split({f[0]!r})'] if f else [])
+    for a, b in itertools.permutations(basics, 2):
+        ext.append(f'seq({a}, {b})')
+    ext += ['repeat(unroll_for(times=1), 2)', 'repeat(unroll_for(times=1), 3)', 'repeat(split(2), 2)', 'repeat(unroll_while(times=1), 2)',
+            'seq(elim_iter(), fuse(), unroll_for(times=1))', 'seq(fuse(), elim_iter(), split(2), unroll_for(times=1))',
+            "seq(unroll_for(where=0, times=1), unroll_for(where=0, times=1))", "seq(split(2, where=0), split(3, where=0))"]
+    for first in ('split(2, where=0)', 'unroll_for(where=0, times=1)', 'unroll_while(where=0, times=1)'):
+        for second, w in (('unroll_for', ('site', 0)), ('unroll_for', ('site', 1)), ('split', ('site', 1)), ('split', ('site', 0)), ('unroll_while', ('site', 0)), ('unroll_for', ('body',))):
+            ext.append(f'fwd({first}, {second!r}, {w!r})')
+    return CORE, ext
+
+PRE = ['simplify()', "single('ConstFold')", "single('CopyPropagate')", 'lift_context()', 'simplify(cf=0)']
+PRE_CALL = ['inline()', 'seq(inline(), simplify())', 'inline(recursive=False)']
+
+def recipes_for_factory(tier):
+    def recipes_for(prog, R):
+        core, ext = all_recipes(prog)
+        if tier == 'quick': return core + R.sample(ext, 10)
+        return core + R.sample(ext, 30)
+    return recipes_for
+
+def _has_lazy_reduction(fn) -> bool:
+    """an any/all over a comprehension in a position the original evaluates conditionally: a later operand of and/or or of a
+    comparison chain, or an assert message (fuse hoists its loop ahead of the statement)"""
+    found = False
+    def reds(e):
+        return any(isinstance(x, (A.AnyOf, A.AllOf)) and isinstance(x.arg, A.ListComp) for _, x in _walk(e))
+    from fpy2.transform.path import sub_exprs
+    def _walk(e):
+        yield None, e
+        for _, _, x in sub_exprs(e): yield from _walk(x)
+    for _, e in T.walk_exprs(fn.ast):
+        if isinstance(e, (A.And, A.Or)) and any(reds(a) for a in e.args[1:]): found = True
+        if isinstance(e, A.Compare) and len(e.args) > 2 and any(reds(a) for a in e.args[2:]): found = True
+    for _, blk in T.walk_blocks(fn.ast):
+        for s in blk.stmts:
+            if isinstance(s, A.AssertStmt) and s.msg is not None and reds(s.msg): found = True
+    return found
+
+def classify(d, fn, xf):
+    if 'fuse' in d['strategy'] or 'ReduceFusion' in d['strategy']:
+        if d['transformed_result'].startswith('err') and _has_lazy_reduction(fn): return 'F54'
+    return None
+
+def build_programs(seed, tier):
+    R = Prng(seed, 'C08:progs')
+    n_main, n_other, n_call = (300, 60, 40) if tier == 'quick' else (440, 90, 70)
+    sc = float(os.environ.get('VERIF_XGEN_SCALE', '1'))   # debugging aid: shrink the run
+    n_main, n_other, n_call = int(n_main * sc), int(n_other * sc), int(n_call * sc)
+    progs = corpus_progs('c08_corpus.py', R)
+    stats = {}
+    for prop, n, pres, frac in (('C08', n_main, PRE, 0.2), ('C07', n_other, PRE, 0.3), ('C09', n_call, PRE_CALL, 1.0)):
+        ps, st = xgen.programs(prop, seed, n)
+        for k, v in st.items(): stats[f'{prop}:{k}'] = v
+        for p in ps:
+            d = p.to_dict()
+            d['args'] = p.args + xgen.random_args(R, p.kinds, 3)
+            if R.random() < frac:
+                d['pre'] = R.choice(pres); d['loops'] = None
+            progs.append(d)
+    return progs, stats
 
 def run(rep, tier, seed):
-    rs = recipes()
-    if tier == 'quick':
-        R0 = Prng(seed, 'C08r'); keep = R0.sample(rs, 14) + [r for r in rs if r[0] in ('elim_iter', 'fuse')]
-    else: keep = rs
-    run_xforms(rep, tier, seed, PROP, 'c08_corpus.py', keep, gen_programs=20 if tier == 'quick' else 250,
-               n_inputs=7 if tier == 'quick' else 10, call_ctxs=(None,))
-    rep.cov['rule'] = ('corpus (early return, mutation of the iterated list, nested loops, zip/enumerate, any/all, loop variable used after the loop, with inside loop) '
-                       '+ random programs; unroll_for/unroll_while times 1..3 by index and all, both remainder strategies (STRICT judged only where its assertion holds), '
-                       'split factor 1..4, elim_iter, fuse and compositions; list lengths 0..7; distinct = distinct (program, strategy, input)')
+    progs, stats = build_programs(seed, tier)
+    opts = {'inputs_cap': 7 if tier == 'quick' else None, 'ctx_every': 3 if tier == 'quick' else 2, 'max_traces': 5 if tier == 'quick' else 10, 'deadline_s': 900 if tier == 'quick' else 3600,
+            'prog_budget': 60 if tier == 'quick' else 240}
+    run_xforms(rep, tier, seed, PROP, progs, recipes_for_factory(tier), classify=classify, opts=opts)
+    summarize_cov(rep, stats)
+    rep.cov['rule'] = ('hand-written corpus + feature-axis synthesised programs (xgen: loops over lists / ranges / literals / zip / enumerate / nested pairs / slices / comprehensions, '
+                       'bodies that reassign the split factor, the bound, the index, the iterated list, return early or use flags, low-precision ambient contexts with exact inner '
+                       'contexts, names colliding with generated temporaries, while loops incl. reductions and calls in the condition, any/all in every position) + programs produced '
+                       'by simplify / inline; unroll_for / ForUnroll times 0..5, by index / cursor / region / all, PEEL and STRICT (AssertionError accepted only where the length is '
+                       'not divisible), custom temporaries; unroll_while; split by literal / variable / expression factor; elim_iter flags and passes in both orders; fuse; ordered '
+                       'pairs and chains; cursors forwarded across a pass; list lengths 0..7, 17, 33, ~257; distinct = distinct (program, strategy, input, ctx) evaluations')
+
+def replay(rep, data):
+    from xform import replay as rp
+    return rp(rep, data, PROP, classify)
